@@ -1015,6 +1015,11 @@ def rule_flow16(prog: Program) -> List[Instance]:
     for n in walk_own(dco.node):
         if isinstance(n, ast.Dict):
             for k, v in zip(n.keys, n.values):
+                if isinstance(k, ast.Constant) and k.value == "tiled":
+                    # a COG is tiled, whatever the image size: the default creation options never switch tiling off
+                    okt = isinstance(v, ast.Constant) and v.value is True
+                    out.append(Instance("R-FLOW16", f"{dco.qual}#tiled", OK if okt else BAD,
+                                        "default creation options always ask for a tiled file" if okt else f"`tiled={short(v)}` can switch tiling off: the file is then striped, not a COG (blocks are not blockxsize x blockysize)", dco.where(v)))
                 if isinstance(k, ast.Constant) and k.value in ("blockxsize", "blockysize"):
                     ok = isinstance(v, ast.Call) and call_name(v) == "adjust_blocksize"
                     dim_ok = True
